@@ -3,7 +3,7 @@
    the world model of World.v, whose chain semantics -- atomic transactions, a reply per accepted transfer, sudo
    callbacks for settlements -- are assumed). *)
 From MW Require Import Staking World.
-From MW.Proofs Require Import Tactics Handlers Maps Invariant Pagination Recovery WorldProofs.
+From MW.Proofs Require Import Tactics Handlers Maps Invariant Pagination Recovery WorldProofs WaitQ.
 From MW.Gen Require Import Consts.
 Open Scope N_scope.
 
@@ -115,3 +115,14 @@ Print Assumptions C07_packet_is_recorded.
 Theorem C07_refused_transaction_changes_nothing : forall va dv av w e i m, wstep va dv av w (WExecRefused e i m) = w.
 Proof. reflexivity. Qed.
 Print Assumptions C07_refused_transaction_changes_nothing.
+
+(* between transactions no submission is left waiting for its reply: every transfer a committed transaction announced has
+   been answered (and recorded), and a transaction whose transfer is refused does not commit at all *)
+Theorem C07_no_dangling_submission : forall va dv av e i m s r evs,
+  instantiate va e i m = Ok (s, r) -> events_ok va dv av (routing_kept va dv av) (world0 s) evs ->
+  waitq (w_store (wrun va dv av (world0 s) evs)) = [].
+Proof.
+  intros va dv av e i m s r evs H Hok. apply wrun_waitq; [eapply world0_inv; exact H | exact Hok|].
+  cbn [world0 w_store]. unfold instantiate in H. inv_ok H. inversion H; subst. reflexivity.
+Qed.
+Print Assumptions C07_no_dangling_submission.
